@@ -25,15 +25,17 @@ struct TraceOut {
     void emit(const char* fmt, ...) __attribute__((format(printf, 2, 3))) {
         if (!f) return; va_list ap; va_start(ap, fmt); vfprintf(f, fmt, ap); va_end(ap); fputc('\n', f); ++events;
     }
+    // the granted-step sequence of the execution (thread ids; -(t+1) = store-buffer drain): kept out of the validation, used for replay
+    void sched(const std::vector<int>& log) { if (!f) return; fputs("{\"e\":\"#sched\",\"s\":\"", f); for (size_t i = 0; i < log.size(); i++) fprintf(f, i ? " %d" : "%d", log[i]); fputs("\"}\n", f); }
     void close() { if (f) fclose(f); f = nullptr; }
 };
 
-struct Tok { int t; std::string label; std::string state; };
+struct Tok { int t; std::string ts; std::string label; std::string state; };
 inline std::vector<Tok> parse_schedule(const std::string& line) {
     std::vector<Tok> r; std::istringstream ss(line); std::string tok;
     while (ss >> tok) {
         size_t c1 = tok.find(':'), c2 = tok.find(':', c1 + 1);
-        Tok k; k.t = atoi(tok.substr(0, c1).c_str()); k.label = tok.substr(c1 + 1, c2 - c1 - 1); k.state = c2 == std::string::npos ? "" : tok.substr(c2 + 1);
+        Tok k; k.ts = tok.substr(0, c1); k.t = atoi(k.ts.c_str()); k.label = tok.substr(c1 + 1, c2 - c1 - 1); k.state = c2 == std::string::npos ? "" : tok.substr(c2 + 1);
         r.push_back(k);
     }
     return r;
